@@ -306,3 +306,19 @@ func MutexHeld(m *sync.Mutex) bool {
 	}
 	return true
 }
+
+// SetNow fixes what time.Now() returns inside the engine (natively a no-op: real time).
+func SetNow(t time.Time) {}
+
+// AssertSat: the condition must be satisfiable (engine). Natively the harness demonstrates the
+// violation by an explicit attack and reports it with Assert.
+func AssertSat(label string, c bool) {}
+
+// Check is Assert without stopping the native run at the first failure.
+func Check(label string, c bool) {
+	if !c {
+		mu.Lock()
+		res.Failed = append(res.Failed, label)
+		mu.Unlock()
+	}
+}
